@@ -493,7 +493,7 @@ class MemSparse(object):
         if memarray is None:
             return False
         for i in range(expr.size // 8):
-            if offset + i not in memarray:
+            if (offset + i) & memarray.mask not in memarray:
                 return False
         return True
 
@@ -509,7 +509,7 @@ class MemSparse(object):
         if memarray is None:
             return False
         for i in range(expr.size // 8):
-            if offset + i in memarray:
+            if (offset + i) & memarray.mask in memarray:
                 return True
         return False
 
